@@ -18,7 +18,7 @@ rundemo() {
   if [ -f $mut/MUT/demo.c ]; then
     timeout 300 mpiexec --allow-run-as-root --oversubscribe -n $ranks $wt/demo_bin > $wt/demo_out.$1 2>&1
   else
-    WT=$wt timeout 600 bash $mut/MUT/demo.sh $wt > $wt/demo_out.$1 2>&1
+    WT=$wt TOP=$wt WORK=/tmp/confirm_demo_work timeout 600 bash $mut/MUT/demo.sh $wt > $wt/demo_out.$1 2>&1
   fi
   echo $?
 }
